@@ -68,7 +68,7 @@ def program_options(rng, here, kind, multi_ok=True, rich=0.25):
             o.append(('numprocs', rng.choice(['1', '0', '01'])))
         maybe(0.3, 'process_name', PROCESS_NAMES_SINGLE + PROCESS_NAMES_MULTI[:3])
     maybe(0.35, 'numprocs_start', ['0', '1', '3', '8', '20', '-2', '98'])
-    maybe(rich * 1.6, 'priority', ['1', '5', '999', '1000', '-1', '50', '500'])
+    maybe(rich * 1.6, 'priority', ['1', '5', '999', '1000', '-1', '50', '500', '0', '0', '-20'])
     maybe(rich, 'autostart', BOOL_T + BOOL_F)
     maybe(rich, 'autorestart', AUTORESTART)
     maybe(rich, 'startsecs', INTS)
@@ -321,11 +321,33 @@ def sweep_configs(here, thorough=False):
                     main.append(('group:site', [('programs', 'alpha,solo,gamma')]))
                 incs = [(rel, [app(nm, n)]) for rel, nm in zip(places, names)]
                 out.append({'main': main, 'incs': incs})
+    # ---- ordering: priorities 0 and negative beside small positive ones and the default, on
+    # programs, groups, listener pools and fcgi programs, written in scrambled order
+    for perm in ([(5, 0, 1, None, -1), (0, 999, -1, 5, 1)] if not thorough else
+                 [(5, 0, 1, None, -1), (0, 999, -1, 5, 1), (None, 0, 0, -7, 1000), (1, 0, -1, -2, 2), (0, None, 0, None, 0)]):
+        names = ['web', 'db', 'cron', 'misc', 'lis']
+        secs = [('supervisord', [])]
+        for nm, pr in zip(names, perm):
+            kind = 'eventlistener' if nm == 'lis' else 'program'
+            o = [('command', '/bin/' + nm)] + ([('priority', str(pr))] if pr is not None else [])
+            if kind == 'eventlistener':
+                o.append(('events', 'TICK_5'))
+            secs.append(('%s:%s' % (kind, nm), o))
+        out.append({'main': secs, 'incs': []})
+        # the same priorities on [group:x] sections holding the programs, and inside one group
+        gsecs = [('supervisord', [])]
+        for nm, pr in zip(names[:4], perm):
+            gsecs.append(('program:' + nm, [('command', '/bin/' + nm), ('priority', str(pr if pr is not None else 999)),
+                                            ('numprocs', '2'), ('process_name', '%(program_name)s_%(process_num)d')]))
+            gsecs.append(('group:g_' + nm, [('programs', nm)] + ([('priority', str(pr))] if pr is not None else [])))
+        gsecs.append(('fcgi-program:fc', [('command', '/bin/fc'), ('socket', 'tcp://localhost:9000'), ('priority', '0')]))
+        out.append({'main': gsecs, 'incs': []})
     memberships = [None, 'a', 'b', 'a,b', 'b,a', 'a,a']
     for m1 in memberships:
         for m2 in ([None, 'a', 'b'] if not thorough else memberships):
-            for pa, pb, pg in ([(999, 999, 999), (1, 999, 5), (5, 5, 5)] if not thorough else
-                               [(999, 999, 999), (1, 999, 5), (5, 5, 5), (2, 1, 0), (999, 1, 1000)]):
+            for pa, pb, pg in ([(999, 999, 999), (1, 999, 5), (5, 5, 5), (0, 5, 1), (-1, 0, 998)] if not thorough else
+                               [(999, 999, 999), (1, 999, 5), (5, 5, 5), (2, 1, 0), (999, 1, 1000), (0, 5, 1), (-1, 0, 998),
+                                (0, 0, 0), (5, 0, -3)]):
                 secs = [('supervisord', []),
                         ('program:b', [('command', '/bin/b'), ('priority', str(pb))]),
                         ('program:a', [('command', '/bin/a'), ('priority', str(pa)), ('numprocs', '2'),
@@ -430,6 +452,14 @@ def corruptions(here, thorough=False):
         add('minprocs=' + v, 'malformed number', _set(b, S, 'minprocs', v))
         add('logfile_backups=' + v, 'malformed number', _set(b, S, 'logfile_backups', v))
         add('socket_backlog=' + v, 'malformed number', _set(b, F, 'socket_backlog', v))
+    # decimal fractions, exponents, inf / nan on every integer-valued option of every table
+    import c14_defaults as _cd
+    _tables, _ = _cd.code_tables()
+    fractions = ['2.7', '1.5', '1e1', '1E3', 'inf', '-inf', 'nan', 'Infinity', '1e400', '0.0', '3.', '.5', '1_0.0']
+    for sec, tab in ((P, 'program'), (S, 'supervisord'), (G, 'group'), (L, 'eventlistener'), (F, 'fcgi-program')):
+        for opt in sorted(set(r[0] for r in _tables[tab] if r[1] == 'integer')) + (['socket_backlog'] if tab == 'fcgi-program' else []):
+            for v in (fractions if thorough or opt in ('numprocs', 'priority', 'startsecs') else fractions[:6]):
+                add('[%s] %s=%s' % (sec, opt, v), 'malformed number (fraction / exponent / inf / nan)', _set(b, sec, opt, v))
     for v in ['0', '-1', '-5']:
         add('buffer_size=' + v, 'malformed number', _set(b, L, 'buffer_size', v))
     for v in ['0', '65536', '-1']:
